@@ -88,7 +88,7 @@ theorem find_updTree (trees : List TreeImg) (k : Nat) (f : TreeImg → TreeImg) 
 
 /-! ### the class -/
 
-structure CG (p0 : PImg) (live : Nat) (allowed covered : List Nat) (top : Bool) (lo nd : Nat) (p : PImg) : Prop where
+structure CG (p0 : PImg) (live : Nat) (allowed covered : List Nat) (lv : LiveP) (lo nd : Nat) (p : PImg) : Prop where
   i2e : p.i2e = p0.i2e
   cat : p.cat = p0.cat
   idx : p.idx = p0.idx
@@ -100,10 +100,10 @@ structure CG (p0 : PImg) (live : Nat) (allowed covered : List Nat) (top : Bool) 
   segOld : ∀ k, k < lo → segFind p k = segFind p0 k
   segKeys : ∀ s ∈ p.segs, s.key < nd
   treeKeys : ∀ t ∈ p.trees, t.key < nd
-  treeLive : live ≠ 0 → ∃ t, treeFind p live = some t ∧ TreeOK allowed covered top t
+  treeLive : live ≠ 0 → ∃ t last, treeFind p live = some t ∧ LiveOK allowed covered lv t last
 
 /-- operations that keep an image inside the class -/
-def CEff (p0 : PImg) (live : Nat) (allowed covered : List Nat) (top : Bool) (lo nd : Nat) : PEff → Prop
+def CEff (p0 : PImg) (live : Nat) (allowed covered : List Nat) (lv : LiveP) (lo nd : Nat) : PEff → Prop
   | .setLen _ => True
   | .bitmap top => nd ≤ top
   | .stats => True
@@ -111,8 +111,9 @@ def CEff (p0 : PImg) (live : Nat) (allowed covered : List Nat) (top : Bool) (lo 
   | .segPart k _ _ _ => lo ≤ k ∧ k < nd
   | .treeNew k => k ≠ live ∧ k < nd
   | .blob _ _ => True
-  | .leaf k i es sib _ => k ≠ live ∨ (top = false ∧ i = 0 ∧ sib = false ∧
-      ∃ xs, es = xs.map some ∧ SortedNat xs ∧ (∀ q ∈ xs, q ∈ allowed) ∧ ∀ q ∈ covered, q ∈ xs)
+  | .leaf k i es sib _ => k ≠ live ∨ (i = lv.Xi.length ∧ sib = false ∧
+      ∃ ys, es = ys.map some ∧ SortedNat (lv.Xi ++ [ys]).flatten ∧ (lv.Xi ≠ [] → ys ≠ [] ∧ ys.headD 0 = lv.hd) ∧
+        (∀ q ∈ ys, q ∈ allowed) ∧ ∀ q ∈ covered, q ∈ (lv.Xi ++ [ys]).flatten)
   | .inode k _ _ => k ≠ live
   | _ => False
 
@@ -120,6 +121,11 @@ theorem treeOK_blob {allowed covered : List Nat} {top : Bool} {t : TreeImg} (h :
     TreeOK allowed covered top { t with blobs := q :: t.blobs } := by
   obtain ⟨X, hs, h3, h4⟩ := h.shape
   exact ⟨⟨X, ⟨hs.ne, hs.leaves, hs.sorted, hs.tail, hs.inode⟩, h3, fun q' hq' => ⟨(h4 q' hq').1, List.mem_cons_of_mem _ (h4 q' hq').2⟩⟩⟩
+
+theorem liveOK_blob {allowed covered : List Nat} {lv : LiveP} {t : TreeImg} {last : List Nat} (h : LiveOK allowed covered lv t last) (q : Nat) :
+    LiveOK allowed covered lv { t with blobs := q :: t.blobs } last :=
+  ⟨⟨h.shape.ne, h.shape.leaves, h.shape.sorted, h.shape.tail, h.shape.inode⟩, h.hd, h.allowed,
+    fun q' hq' => ⟨(h.covered q' hq').1, List.mem_cons_of_mem _ (h.covered q' hq').2⟩⟩
 
 /-- a tree that consists of one leaf entered directly -/
 theorem treeShape_single (t : TreeImg) (xs : List Nat) (pid : Nat) (hl : t.leaves = [⟨xs.map some, false, pid⟩])
@@ -138,9 +144,9 @@ theorem treeShape_single_inv {t : TreeImg} {X : List (List Nat)} (h : TreeShape 
     subst hY
     exact ⟨xs, pids.headD 0, rfl, by simp [hl, mkLeaves], by simpa using h.sorted, hin.1⟩
 
-theorem cg_applyEff {p0 : PImg} {live lo nd : Nat} {allowed covered : List Nat} {top : Bool} {p : PImg} {e : PEff}
-    (h : CG p0 live allowed covered top lo nd p) (he : CEff p0 live allowed covered top lo nd e) :
-    CG p0 live allowed covered top lo nd (applyEff e p) := by
+theorem cg_applyEff {p0 : PImg} {live lo nd : Nat} {allowed covered : List Nat} {lv : LiveP} {p : PImg} {e : PEff}
+    (h : CG p0 live allowed covered lv lo nd p) (he : CEff p0 live allowed covered lv lo nd e) :
+    CG p0 live allowed covered lv lo nd (applyEff e p) := by
   cases e <;> simp only [CEff] at he
   case setLen n => exact { h with len := Nat.le_trans h.len (Nat.le_max_left _ _) }
   case bitmap top => exact { h with bmlo := he }
@@ -159,44 +165,47 @@ theorem cg_applyEff {p0 : PImg} {live lo nd : Nat} {allowed covered : List Nat} 
       · exact he.2
       · exact h.treeKeys t ht
     · intro hl
-      obtain ⟨t, hf, hok⟩ := h.treeLive hl
-      refine ⟨t, ?_, hok⟩
+      obtain ⟨t, last, hf, hok⟩ := h.treeLive hl
+      refine ⟨t, last, ?_, hok⟩
       have : (k == live) = false := by simpa using he.1
       simpa [treeFind, applyEff, List.find?_cons, this] using hf
   case blob k q =>
     refine { h with treeKeys := keys_updTree p.trees k (fun t => { t with blobs := q :: t.blobs }) (fun _ => rfl) _ h.treeKeys, treeLive := ?_ }
     intro hl
-    obtain ⟨t, hf, hok⟩ := h.treeLive hl
+    obtain ⟨t, last, hf, hok⟩ := h.treeLive hl
     have := find_updTree p.trees k (fun t => { t with blobs := q :: t.blobs }) (fun _ => rfl) live
     simp only [treeFind] at hf
     rw [hf] at this
     by_cases hk : t.key = k
-    · exact ⟨_, by simpa [treeFind, applyEff, hk] using this, treeOK_blob hok q⟩
-    · exact ⟨t, by simpa [treeFind, applyEff, hk] using this, hok⟩
+    · exact ⟨_, last, by simpa [treeFind, applyEff, hk] using this, liveOK_blob hok q⟩
+    · exact ⟨t, last, by simpa [treeFind, applyEff, hk] using this, hok⟩
   case leaf k i es sib pid =>
     refine { h with treeKeys := keys_updTree p.trees k (fun t => { t with leaves := setLeaf t.leaves i ⟨es, sib, pid⟩ }) (fun _ => rfl) _ h.treeKeys, treeLive := ?_ }
     intro hl
-    obtain ⟨t, hf, hok⟩ := h.treeLive hl
+    obtain ⟨t, last, hf, hok⟩ := h.treeLive hl
     have htk : t.key = live := by
       have := List.find?_some hf
       simpa using this
     have := find_updTree p.trees k (fun t => { t with leaves := setLeaf t.leaves i ⟨es, sib, pid⟩ }) (fun _ => rfl) live
     simp only [treeFind] at hf
     rw [hf] at this
-    rcases he with hne | ⟨rfl, rfl, rfl, xs, rfl, hs, hal, hcov⟩
+    rcases he with hne | ⟨rfl, rfl, ys, rfl, hs, hhd, hal, hcov⟩
     · have hk : ¬ t.key = k := by rw [htk]; exact fun h' => hne h'.symm
-      exact ⟨t, by simpa [treeFind, applyEff, hk] using this, hok⟩
+      exact ⟨t, last, by simpa [treeFind, applyEff, hk] using this, hok⟩
     · by_cases hk : t.key = k
-      · refine ⟨_, by simpa [treeFind, applyEff, hk] using this, ?_⟩
-        obtain ⟨X, hsh, _, h4⟩ := hok.shape
-        obtain ⟨xs0, pid0, rfl, h1, _, hino⟩ := treeShape_single_inv hsh
-        refine ⟨⟨[xs], treeShape_single _ xs pid (by simp [h1, setLeaf]) hs hino, by simpa using hal,
-          fun q hq => ⟨by simpa using hcov q hq, (h4 q hq).2⟩⟩⟩
-      · exact ⟨t, by simpa [treeFind, applyEff, hk] using this, hok⟩
+      · refine ⟨_, ys, by simpa [treeFind, applyEff, hk] using this, ?_⟩
+        refine ⟨treeShape_setLast hok.shape pid rfl rfl hs (fun hx => ⟨(hhd hx).1, by rw [(hhd hx).2, hok.hd hx]⟩),
+          fun hx => (hhd hx).2, ?_, fun q hq => ⟨hcov q hq, (hok.covered q hq).2⟩⟩
+        intro q hq
+        simp only [List.flatten_append, List.flatten_cons, List.flatten_nil, List.append_nil, List.mem_append] at hq
+        rcases hq with hq | hq
+        · exact hok.allowed q (by simp [hq])
+        · exact hal q hq
+      · exact ⟨t, last, by simpa [treeFind, applyEff, hk] using this, hok⟩
   case inode k seps pid =>
     refine { h with treeKeys := keys_updTree p.trees k (fun t => { t with inode := some seps, inodePid := pid }) (fun _ => rfl) _ h.treeKeys, treeLive := ?_ }
     intro hl
-    obtain ⟨t, hf, hok⟩ := h.treeLive hl
+    obtain ⟨t, last, hf, hok⟩ := h.treeLive hl
     have htk : t.key = live := by
       have := List.find?_some hf
       simpa using this
@@ -204,25 +213,25 @@ theorem cg_applyEff {p0 : PImg} {live lo nd : Nat} {allowed covered : List Nat} 
     simp only [treeFind] at hf
     rw [hf] at this
     have hk : ¬ t.key = k := by rw [htk]; exact fun h' => he h'.symm
-    exact ⟨t, by simpa [treeFind, applyEff, hk] using this, hok⟩
+    exact ⟨t, last, by simpa [treeFind, applyEff, hk] using this, hok⟩
 
-theorem ceff_torn {p0 : PImg} {live lo nd : Nat} {allowed covered : List Nat} {top : Bool} {p : PImg} {e e' : PEff}
-    (he : CEff p0 live allowed covered top lo nd e) (hl : isLiveLeaf live e = false) (ht : tornEff p e = some e') :
-    CEff p0 live allowed covered top lo nd e' := by
+theorem ceff_torn {p0 : PImg} {live lo nd : Nat} {allowed covered : List Nat} {lv : LiveP} {p : PImg} {e e' : PEff}
+    (he : CEff p0 live allowed covered lv lo nd e) (hl : isLiveLeaf live e = false) (ht : tornEff p e = some e') :
+    CEff p0 live allowed covered lv lo nd e' := by
   cases e <;> simp only [CEff] at he <;> simp only [tornEff, Option.some.injEq] at ht <;> try (subst ht; simpa [CEff] using he)
   case leaf k i es sib pid =>
     have hne : k ≠ live := by simpa [isLiveLeaf] using hl
     split at ht <;> (try split at ht) <;> simp only [Option.some.injEq] at ht <;> subst ht <;> exact Or.inl hne
 
 /-- steps that keep every image of the class -/
-def CStepOK (p0 : PImg) (live : Nat) (allowed covered : List Nat) (top : Bool) (lo nd : Nat) : Step → Prop
-  | .pg e _ => CEff p0 live allowed covered top lo nd e
+def CStepOK (p0 : PImg) (live : Nat) (allowed covered : List Nat) (lv : LiveP) (lo nd : Nat) : Step → Prop
+  | .pg e _ => CEff p0 live allowed covered lv lo nd e
   | .ps => True
   | _ => False
 
-theorem allImgsL_cstep {p0 : PImg} {live lo nd : Nat} {allowed covered : List Nat} {top : Bool} (fs : FS) (s : Step)
-    (h : AllImgsL live fs (CG p0 live allowed covered top lo nd)) (hs : CStepOK p0 live allowed covered top lo nd s) :
-    AllImgsL live (fs.step s) (CG p0 live allowed covered top lo nd) := by
+theorem allImgsL_cstep {p0 : PImg} {live lo nd : Nat} {allowed covered : List Nat} {lv : LiveP} (fs : FS) (s : Step)
+    (h : AllImgsL live fs (CG p0 live allowed covered lv lo nd)) (hs : CStepOK p0 live allowed covered lv lo nd s) :
+    AllImgsL live (fs.step s) (CG p0 live allowed covered lv lo nd) := by
   cases s <;> simp only [CStepOK] at hs
   case pg e pid =>
     apply allImgsL_pg live fs _ e pid h
@@ -230,29 +239,29 @@ theorem allImgsL_cstep {p0 : PImg} {live lo nd : Nat} {allowed covered : List Na
     exact ⟨cg_applyEff hp hs, fun hl e' ht => cg_applyEff hp (ceff_torn hs hl ht)⟩
   case ps => exact allImgsL_ps live fs _ (allImgsL_pv live fs _ h)
 
-theorem cstep_block {p0 : PImg} {live lo nd : Nat} {allowed covered : List Nat} {top : Bool} (S : List Step) :
-    ∀ (fs : FS), AllImgsL live fs (CG p0 live allowed covered top lo nd) → (∀ s ∈ S, CStepOK p0 live allowed covered top lo nd s) →
-      SafeAlong (fun fs => AllImgsL live fs (CG p0 live allowed covered top lo nd)) fs S := by
+theorem cstep_block {p0 : PImg} {live lo nd : Nat} {allowed covered : List Nat} {lv : LiveP} (S : List Step) :
+    ∀ (fs : FS), AllImgsL live fs (CG p0 live allowed covered lv lo nd) → (∀ s ∈ S, CStepOK p0 live allowed covered lv lo nd s) →
+      SafeAlong (fun fs => AllImgsL live fs (CG p0 live allowed covered lv lo nd)) fs S := by
   induction S with
   | nil => intro fs h _; exact safeAlong_nil h
   | cons s S ih =>
     intro fs h hs
     exact safeAlong_cons h (ih _ (allImgsL_cstep fs s h (hs s (by simp))) (fun s' hs' => hs s' (by simp [hs'])))
 
-theorem cstep_pagerStep {p0 : PImg} {live lo nd : Nat} {allowed covered : List Nat} {top : Bool} {s : Step}
-    (h : CStepOK p0 live allowed covered top lo nd s) : PagerStep s := by
+theorem cstep_pagerStep {p0 : PImg} {live lo nd : Nat} {allowed covered : List Nat} {lv : LiveP} {s : Step}
+    (h : CStepOK p0 live allowed covered lv lo nd s) : PagerStep s := by
   cases s <;> simp [CStepOK] at h <;> trivial
 
-theorem CG.raise {p0 : PImg} {live lo nd nd' : Nat} {allowed covered : List Nat} {top : Bool} {p : PImg}
-    (h : CG p0 live allowed covered top lo nd p) (h1 : nd ≤ nd') (h2 : nd' ≤ p.hdr.nextPage) (h3 : nd' ≤ p.bm) :
-    CG p0 live allowed covered top lo nd' p :=
+theorem CG.raise {p0 : PImg} {live lo nd nd' : Nat} {allowed covered : List Nat} {lv : LiveP} {p : PImg}
+    (h : CG p0 live allowed covered lv lo nd p) (h1 : nd ≤ nd') (h2 : nd' ≤ p.hdr.nextPage) (h3 : nd' ≤ p.bm) :
+    CG p0 live allowed covered lv lo nd' p :=
   { h with lond := Nat.le_trans h.lond h1, np := h2, bmlo := h3, segKeys := fun s hs => Nat.lt_of_lt_of_le (h.segKeys s hs) h1,
            treeKeys := fun t ht => Nat.lt_of_lt_of_le (h.treeKeys t ht) h1 }
 
 /-! ### what the class guarantees -/
 
-theorem CG.pagerOK {p0 : PImg} {live lo nd : Nat} {allowed covered : List Nat} {top : Bool} {p : PImg} {N : List Nat} {c : Nat}
-    (h : CG p0 live allowed covered top lo nd p) (h0 : PagerOK N c p0) (h2 : 2 ≤ lo) : PagerOK N c p where
+theorem CG.pagerOK {p0 : PImg} {live lo nd : Nat} {allowed covered : List Nat} {lv : LiveP} {p : PImg} {N : List Nat} {c : Nat}
+    (h : CG p0 live allowed covered lv lo nd p) (h0 : PagerOK N c p0) (h2 : 2 ≤ lo) : PagerOK N c p where
   booted :=
     { init := by rw [h.hdr.init]; exact h0.booted.init
       len := Nat.le_trans h0.booted.len h.len
@@ -285,8 +294,8 @@ theorem StoreOK.segLt {T : List Tx} {cs : List CTx} {p : PImg} (h : StoreOK T cs
   rw [← h2]
   exact h.segKeys s h1
 
-theorem CG.storeOK {p0 : PImg} {lo nd : Nat} {allowed covered : List Nat} {p : PImg} {T : List Tx} {cs : List CTx}
-    (h : CG p0 (scan cs).proot allowed covered (scan cs).ptop lo nd p) (h0 : StoreOK T cs p0) (hlo : min p0.bm p0.hdr.nextPage ≤ lo)
+theorem CG.storeOK {p0 : PImg} {lo nd : Nat} {allowed covered : List Nat} {lv : LiveP} {p : PImg} {T : List Tx} {cs : List CTx}
+    (h : CG p0 (scan cs).proot allowed covered lv lo nd p) (hlv : lv.top = (scan cs).ptop) (h0 : StoreOK T cs p0) (hlo : min p0.bm p0.hdr.nextPage ≤ lo)
     (hal : allowed = allProps T)
     (h1 : ∀ q ∈ allProps T, q ∈ (logRuns (scan cs).ckpt cs).flatMap (·.props) ∨ q ∈ covered)
     (h2 : (scan cs).proot = 0 → covered = []) : StoreOK T cs p where
@@ -303,6 +312,9 @@ theorem CG.storeOK {p0 : PImg} {lo nd : Nat} {allowed covered : List Nat} {p : P
       simp only [segEdges, h.segOld k (by have := h0.segLt k hk; omega)]
     intro e; rw [this]; exact h0.edges e
   runProps := h0.runProps
-  props := ⟨covered, h1, h2, fun hne => by subst hal; exact h.treeLive hne⟩
+  props := ⟨covered, h1, h2, fun hne => by
+    subst hal
+    obtain ⟨t, last, hf, hok⟩ := h.treeLive hne
+    exact ⟨t, hf, by rw [← hlv]; exact hok.treeOK⟩⟩
 
 end Nervus.Crash
